@@ -40,6 +40,9 @@ def run(chk):
     r5(chk, prog, tables)
     with chk.shared():
         from . import c15
+        from .. import heapuse
+        # a block released through a field of the parser must not stay reachable through that field (reset / free would release it again)
+        heapuse.rule_dangling_fields(chk, prog, "C08.R6", only_modules={"json_tokener.c"})
         c15.r_safety(chk, prog, "C04.R8")       # the level stack is never indexed outside its allocation (automaton, shared with C15)
         # the buffers and containers the parser fills: every write inside the allocation (shared with C19 / C07 / C06)
         from . import c19, c07, c06
